@@ -15,6 +15,11 @@ import (
 
 func init() {
 	register(&PropertyCheck{ID: "C09", Level: "other", Run: checkC09, Canaries: []Canary{
+		{Name: "rf7-per-property-helper-without-default", Rule: "R9.5", Where: "(*buffer).getProp", Edits: []Edit{{"buffer.go", "\tvar propLen vbint\n\tb.get(&propLen)\n\tend := b.i + int(propLen)\n\tvar id Ident\n\tfor b.i < end {\n\t\tb.get(&id)\n\t\t// first failure stops the parsing\n\t\tif b.err != nil {\n\t\t\treturn\n\t\t}\n\t\tfield, hasField := fields[id]\n\t\tif hasField {\n\t\t\tb.get(field())\n\t\t\tcontinue\n\t\t}\n\t\tswitch id {\n\t\tcase UserProperty:\n\t\t\tvar p UserProp\n\t\t\tb.get(&p)\n\t\t\taddProp(p)\n\n\t\tcase SubscriptionID:\n\t\t\tvar sub vbint\n\t\t\tb.get(&sub)\n\t\t\tif b.addSubscriptionID != nil {\n\t\t\t\tb.addSubscriptionID(uint32(sub))\n\t\t\t}\n\n\t\tdefault:\n\t\t\tb.err = fmt.Errorf(\"unknown property id 0x%02x\", id)\n\t\t}", "\tend := b.getPropLen()\n\t// first failure stops the parsing\n\tfor b.i < end && b.err == nil {\n\t\tb.getProp(fields, addProp)\n\t}\n}\n\n// getPropLen reads the property length and returns the offset of\n// the first byte following the properties.\nfunc (b *buffer) getPropLen() int {\n\tvar propLen vbint\n\tb.get(&propLen)\n\treturn b.i + int(propLen)\n}\n\n// getProp reads one property, i.e. the identifier followed by its\n// value.\nfunc (b *buffer) getProp(fields map[Ident]func() wireType, addProp func(UserProp)) {\n\tvar id Ident\n\tb.get(&id)\n\tif b.err != nil {\n\t\treturn\n\t}\n\tif field, hasField := fields[id]; hasField {\n\t\tb.get(field())\n\t\treturn\n\t}\n\tswitch id {\n\tcase UserProperty:\n\t\tb.getUserProp(addProp)\n\tcase SubscriptionID:\n\t\tb.getSubscriptionID()\n\t}\n}\n\nfunc (b *buffer) getUserProp(addProp func(UserProp)) {\n\tvar p UserProp\n\tb.get(&p)\n\taddProp(p)\n}\n\nfunc (b *buffer) getSubscriptionID() {\n\tvar sub vbint\n\tb.get(&sub)\n\tif b.addSubscriptionID != nil {\n\t\tb.addSubscriptionID(uint32(sub))"}}},
+		{Name: "rf7-per-property-helper-reads-the-identifier", Silent: true, Edits: []Edit{{"buffer.go", "\tvar propLen vbint\n\tb.get(&propLen)\n\tend := b.i + int(propLen)\n\tvar id Ident\n\tfor b.i < end {\n\t\tb.get(&id)\n\t\t// first failure stops the parsing\n\t\tif b.err != nil {\n\t\t\treturn\n\t\t}\n\t\tfield, hasField := fields[id]\n\t\tif hasField {\n\t\t\tb.get(field())\n\t\t\tcontinue\n\t\t}\n\t\tswitch id {\n\t\tcase UserProperty:\n\t\t\tvar p UserProp\n\t\t\tb.get(&p)\n\t\t\taddProp(p)\n\n\t\tcase SubscriptionID:\n\t\t\tvar sub vbint\n\t\t\tb.get(&sub)\n\t\t\tif b.addSubscriptionID != nil {\n\t\t\t\tb.addSubscriptionID(uint32(sub))\n\t\t\t}\n\n\t\tdefault:\n\t\t\tb.err = fmt.Errorf(\"unknown property id 0x%02x\", id)\n\t\t}", "\tend := b.getPropLen()\n\t// first failure stops the parsing\n\tfor b.i < end && b.err == nil {\n\t\tb.getProp(fields, addProp)\n\t}\n}\n\n// getPropLen reads the property length and returns the offset of\n// the first byte following the properties.\nfunc (b *buffer) getPropLen() int {\n\tvar propLen vbint\n\tb.get(&propLen)\n\treturn b.i + int(propLen)\n}\n\n// getProp reads one property, i.e. the identifier followed by its\n// value.\nfunc (b *buffer) getProp(fields map[Ident]func() wireType, addProp func(UserProp)) {\n\tvar id Ident\n\tb.get(&id)\n\tif b.err != nil {\n\t\treturn\n\t}\n\tif field, hasField := fields[id]; hasField {\n\t\tb.get(field())\n\t\treturn\n\t}\n\tswitch id {\n\tcase UserProperty:\n\t\tb.getUserProp(addProp)\n\tcase SubscriptionID:\n\t\tb.getSubscriptionID()\n\tdefault:\n\t\tb.err = fmt.Errorf(\"unknown property id 0x%02x\", id)\n\t}\n}\n\nfunc (b *buffer) getUserProp(addProp func(UserProp)) {\n\tvar p UserProp\n\tb.get(&p)\n\taddProp(p)\n}\n\nfunc (b *buffer) getSubscriptionID() {\n\tvar sub vbint\n\tb.get(&sub)\n\tif b.addSubscriptionID != nil {\n\t\tb.addSubscriptionID(uint32(sub))"}}},
+		{Name: "rf7-reader-constructor-starting-at-offset-one", Rule: "R9.2", Where: "(*Auth).UnmarshalBinary", Edits: []Edit{{"auth.go", "\tb := &buffer{data: data}", "\tb := newBuffer(data)"}, {"buffer.go", "// getAny reads all properties from the current offset starting with\n// the variable length.  fields map property identity codes to wire\n// type fields and the addProp func is used for each user property.\nfunc (b *buffer) getAny(fields map[Ident]func() wireType, addProp func(UserProp)) {\n\tif b.atEnd() {\n\t\treturn\n\t}\n\tvar propLen vbint\n\tb.get(&propLen)\n\tend := b.i + int(propLen)\n\tvar id Ident\n\tfor b.i < end {\n\t\tb.get(&id)\n\t\t// first failure stops the parsing\n\t\tif b.err != nil {\n\t\t\treturn\n\t\t}\n\t\tfield, hasField := fields[id]\n\t\tif hasField {\n\t\t\tb.get(field())\n\t\t\tcontinue\n\t\t}\n\t\tswitch id {\n\t\tcase UserProperty:\n\t\t\tvar p UserProp\n\t\t\tb.get(&p)\n\t\t\taddProp(p)\n\n\t\tcase SubscriptionID:\n\t\t\tvar sub vbint\n\t\t\tb.get(&sub)\n\t\t\tif b.addSubscriptionID != nil {\n\t\t\t\tb.addSubscriptionID(uint32(sub))\n\t\t\t}\n\n\t\tdefault:\n\t\t\tb.err = fmt.Errorf(\"unknown property id 0x%02x\", id)\n\t\t}\n\t}\n}\n\nfunc (b *buffer) get(v wireType) {\n\tif b.err != nil {\n\t\treturn\n\t}\n\tif b.i >= len(b.data) {\n\t\tb.err = ErrMissingData\n\t\treturn\n\t}\n\tif b.err = v.UnmarshalBinary(b.data[b.i:]); b.err != nil {\n\t\treturn\n\t}\n\tn := v.width()\n\tif n > len(b.data)-b.i {\n\t\tb.err = ErrMissingData\n\t\treturn\n\t}\n\tb.i += n", "// newBuffer returns a buffer positioned at the start of data.\nfunc newBuffer(data []byte) *buffer {\n\treturn &buffer{data: data, i: 1}\n}\n\n// getAny reads all properties from the current offset starting with\n// the variable length.  fields map property identity codes to wire\n// type fields and the addProp func is used for each user property.\nfunc (b *buffer) getAny(fields map[Ident]func() wireType, addProp func(UserProp)) {\n\tif b.atEnd() {\n\t\treturn\n\t}\n\tvar propLen vbint\n\tb.get(&propLen)\n\tend := b.i + int(propLen)\n\tvar id Ident\n\tfor b.i < end {\n\t\tb.get(&id)\n\t\t// first failure stops the parsing\n\t\tif b.err != nil {\n\t\t\treturn\n\t\t}\n\t\tfield, hasField := fields[id]\n\t\tif hasField {\n\t\t\tb.get(field())\n\t\t\tcontinue\n\t\t}\n\t\tswitch id {\n\t\tcase UserProperty:\n\t\t\tvar p UserProp\n\t\t\tb.get(&p)\n\t\t\taddProp(p)\n\n\t\tcase SubscriptionID:\n\t\t\tvar sub vbint\n\t\t\tb.get(&sub)\n\t\t\tif b.addSubscriptionID != nil {\n\t\t\t\tb.addSubscriptionID(uint32(sub))\n\t\t\t}\n\n\t\tdefault:\n\t\t\tb.fail(fmt.Errorf(\"unknown property id 0x%02x\", id))\n\t\t}\n\t}\n}\n\nfunc (b *buffer) get(v wireType) {\n\tif b.err != nil {\n\t\treturn\n\t}\n\trest := b.rest()\n\tif len(rest) == 0 {\n\t\tb.fail(ErrMissingData)\n\t\treturn\n\t}\n\tif err := v.UnmarshalBinary(rest); err != nil {\n\t\tb.fail(err)\n\t\treturn\n\t}\n\tn := v.width()\n\tif n > len(rest) {\n\t\tb.fail(ErrMissingData)\n\t\treturn\n\t}\n\tb.i += n\n}\n\n// rest returns the data not yet read.\nfunc (b *buffer) rest() []byte {\n\treturn b.data[b.i:]\n}\n\n// fail records err unless a previous failure is already recorded,\n// i.e. the first failure is the one reported.\nfunc (b *buffer) fail(err error) {\n\tif b.err == nil {\n\t\tb.err = err\n\t}"}, {"connack.go", "\tb := &buffer{data: data}", "\tb := newBuffer(data)"}, {"connect.go", "\tbuf := &buffer{data: data}", "\tbuf := newBuffer(data)"}, {"disconnect.go", "\tb := &buffer{data: data}", "\tb := newBuffer(data)"}, {"puback.go", "\tb := &buffer{data: data}", "\tb := newBuffer(data)"}, {"pubcomp.go", "\tb := &buffer{data: data}", "\tb := newBuffer(data)"}, {"pubrec.go", "\tb := &buffer{data: data}", "\tb := newBuffer(data)"}, {"pubrel.go", "\tb := &buffer{data: data}", "\tb := newBuffer(data)"}, {"suback.go", "\tb := &buffer{data: data}", "\tb := newBuffer(data)"}, {"subscribe.go", "\tb := &buffer{data: data}", "\tb := newBuffer(data)"}, {"unsuback.go", "\tb := &buffer{data: data}", "\tb := newBuffer(data)"}, {"unsubscribe.go", "\tb := &buffer{data: data}", "\tb := newBuffer(data)"}}},
+		{Name: "rf7-unknown-identifier-recorded-only-late-in-the-frame", Rule: "R9.5", Where: "getAny", Edits: []Edit{{"auth.go", "\tb := &buffer{data: data}", "\tb := newBuffer(data)"}, {"buffer.go", "// getAny reads all properties from the current offset starting with\n// the variable length.  fields map property identity codes to wire\n// type fields and the addProp func is used for each user property.\nfunc (b *buffer) getAny(fields map[Ident]func() wireType, addProp func(UserProp)) {\n\tif b.atEnd() {\n\t\treturn\n\t}\n\tvar propLen vbint\n\tb.get(&propLen)\n\tend := b.i + int(propLen)\n\tvar id Ident\n\tfor b.i < end {\n\t\tb.get(&id)\n\t\t// first failure stops the parsing\n\t\tif b.err != nil {\n\t\t\treturn\n\t\t}\n\t\tfield, hasField := fields[id]\n\t\tif hasField {\n\t\t\tb.get(field())\n\t\t\tcontinue\n\t\t}\n\t\tswitch id {\n\t\tcase UserProperty:\n\t\t\tvar p UserProp\n\t\t\tb.get(&p)\n\t\t\taddProp(p)\n\n\t\tcase SubscriptionID:\n\t\t\tvar sub vbint\n\t\t\tb.get(&sub)\n\t\t\tif b.addSubscriptionID != nil {\n\t\t\t\tb.addSubscriptionID(uint32(sub))\n\t\t\t}\n\n\t\tdefault:\n\t\t\tb.err = fmt.Errorf(\"unknown property id 0x%02x\", id)\n\t\t}\n\t}\n}\n\nfunc (b *buffer) get(v wireType) {\n\tif b.err != nil {\n\t\treturn\n\t}\n\tif b.i >= len(b.data) {\n\t\tb.err = ErrMissingData\n\t\treturn\n\t}\n\tif b.err = v.UnmarshalBinary(b.data[b.i:]); b.err != nil {\n\t\treturn\n\t}\n\tn := v.width()\n\tif n > len(b.data)-b.i {\n\t\tb.err = ErrMissingData\n\t\treturn\n\t}\n\tb.i += n\n}\n\nfunc (b *buffer) atEnd() bool {\n\treturn b.i == len(b.data)\n}\n\nfunc (b *buffer) Err() error { return b.err }\n\nvar ErrMissingData = fmt.Errorf(\"missing data\")", "// newBuffer returns a buffer positioned at the start of data.\nfunc newBuffer(data []byte) *buffer {\n\treturn &buffer{data: data}\n}\n\n// getAny reads all properties from the current offset starting with\n// the variable length.  fields map property identity codes to wire\n// type fields and the addProp func is used for each user property.\nfunc (b *buffer) getAny(fields map[Ident]func() wireType, addProp func(UserProp)) {\n\tif b.atEnd() {\n\t\treturn\n\t}\n\tvar propLen vbint\n\tb.get(&propLen)\n\tend := b.i + int(propLen)\n\tvar id Ident\n\tfor b.i < end {\n\t\tb.get(&id)\n\t\t// first failure stops the parsing\n\t\tif b.err != nil {\n\t\t\treturn\n\t\t}\n\t\tfield, hasField := fields[id]\n\t\tif hasField {\n\t\t\tb.get(field())\n\t\t\tcontinue\n\t\t}\n\t\tswitch id {\n\t\tcase UserProperty:\n\t\t\tvar p UserProp\n\t\t\tb.get(&p)\n\t\t\taddProp(p)\n\n\t\tcase SubscriptionID:\n\t\t\tvar sub vbint\n\t\t\tb.get(&sub)\n\t\t\tif b.addSubscriptionID != nil {\n\t\t\t\tb.addSubscriptionID(uint32(sub))\n\t\t\t}\n\n\t\tdefault:\n\t\t\tb.failLater(fmt.Errorf(\"unknown property id 0x%02x\", id))\n\t\t}\n\t}\n}\n\nfunc (b *buffer) get(v wireType) {\n\tif b.err != nil {\n\t\treturn\n\t}\n\trest := b.rest()\n\tif len(rest) == 0 {\n\t\tb.fail(ErrMissingData)\n\t\treturn\n\t}\n\tif err := v.UnmarshalBinary(rest); err != nil {\n\t\tb.fail(err)\n\t\treturn\n\t}\n\tn := v.width()\n\tif n > len(rest) {\n\t\tb.fail(ErrMissingData)\n\t\treturn\n\t}\n\tb.i += n\n}\n\n// rest returns the data not yet read.\nfunc (b *buffer) rest() []byte {\n\treturn b.data[b.i:]\n}\n\n// fail records err unless a previous failure is already recorded,\n// i.e. the first failure is the one reported.\nfunc (b *buffer) fail(err error) {\n\tif b.err == nil {\n\t\tb.err = err\n\t}\n}\n\nfunc (b *buffer) atEnd() bool {\n\treturn b.i == len(b.data)\n}\n\nfunc (b *buffer) Err() error { return b.err }\n\nvar ErrMissingData = fmt.Errorf(\"missing data\")\n\n// failLater records err once the variable header has been passed.\nfunc (b *buffer) failLater(err error) {\n\tif b.err == nil && b.i > 8 {\n\t\tb.err = err\n\t}\n}"}, {"connack.go", "\tb := &buffer{data: data}", "\tb := newBuffer(data)"}, {"connect.go", "\tbuf := &buffer{data: data}", "\tbuf := newBuffer(data)"}, {"disconnect.go", "\tb := &buffer{data: data}", "\tb := newBuffer(data)"}, {"puback.go", "\tb := &buffer{data: data}", "\tb := newBuffer(data)"}, {"pubcomp.go", "\tb := &buffer{data: data}", "\tb := newBuffer(data)"}, {"pubrec.go", "\tb := &buffer{data: data}", "\tb := newBuffer(data)"}, {"pubrel.go", "\tb := &buffer{data: data}", "\tb := newBuffer(data)"}, {"suback.go", "\tb := &buffer{data: data}", "\tb := newBuffer(data)"}, {"subscribe.go", "\tb := &buffer{data: data}", "\tb := newBuffer(data)"}, {"unsuback.go", "\tb := &buffer{data: data}", "\tb := newBuffer(data)"}, {"unsubscribe.go", "\tb := &buffer{data: data}", "\tb := newBuffer(data)"}}},
+		{Name: "rf7-reader-constructor-and-fail-helper", Silent: true, Edits: []Edit{{"auth.go", "\tb := &buffer{data: data}", "\tb := newBuffer(data)"}, {"buffer.go", "// getAny reads all properties from the current offset starting with\n// the variable length.  fields map property identity codes to wire\n// type fields and the addProp func is used for each user property.\nfunc (b *buffer) getAny(fields map[Ident]func() wireType, addProp func(UserProp)) {\n\tif b.atEnd() {\n\t\treturn\n\t}\n\tvar propLen vbint\n\tb.get(&propLen)\n\tend := b.i + int(propLen)\n\tvar id Ident\n\tfor b.i < end {\n\t\tb.get(&id)\n\t\t// first failure stops the parsing\n\t\tif b.err != nil {\n\t\t\treturn\n\t\t}\n\t\tfield, hasField := fields[id]\n\t\tif hasField {\n\t\t\tb.get(field())\n\t\t\tcontinue\n\t\t}\n\t\tswitch id {\n\t\tcase UserProperty:\n\t\t\tvar p UserProp\n\t\t\tb.get(&p)\n\t\t\taddProp(p)\n\n\t\tcase SubscriptionID:\n\t\t\tvar sub vbint\n\t\t\tb.get(&sub)\n\t\t\tif b.addSubscriptionID != nil {\n\t\t\t\tb.addSubscriptionID(uint32(sub))\n\t\t\t}\n\n\t\tdefault:\n\t\t\tb.err = fmt.Errorf(\"unknown property id 0x%02x\", id)\n\t\t}\n\t}\n}\n\nfunc (b *buffer) get(v wireType) {\n\tif b.err != nil {\n\t\treturn\n\t}\n\tif b.i >= len(b.data) {\n\t\tb.err = ErrMissingData\n\t\treturn\n\t}\n\tif b.err = v.UnmarshalBinary(b.data[b.i:]); b.err != nil {\n\t\treturn\n\t}\n\tn := v.width()\n\tif n > len(b.data)-b.i {\n\t\tb.err = ErrMissingData\n\t\treturn\n\t}\n\tb.i += n", "// newBuffer returns a buffer positioned at the start of data.\nfunc newBuffer(data []byte) *buffer {\n\treturn &buffer{data: data}\n}\n\n// getAny reads all properties from the current offset starting with\n// the variable length.  fields map property identity codes to wire\n// type fields and the addProp func is used for each user property.\nfunc (b *buffer) getAny(fields map[Ident]func() wireType, addProp func(UserProp)) {\n\tif b.atEnd() {\n\t\treturn\n\t}\n\tvar propLen vbint\n\tb.get(&propLen)\n\tend := b.i + int(propLen)\n\tvar id Ident\n\tfor b.i < end {\n\t\tb.get(&id)\n\t\t// first failure stops the parsing\n\t\tif b.err != nil {\n\t\t\treturn\n\t\t}\n\t\tfield, hasField := fields[id]\n\t\tif hasField {\n\t\t\tb.get(field())\n\t\t\tcontinue\n\t\t}\n\t\tswitch id {\n\t\tcase UserProperty:\n\t\t\tvar p UserProp\n\t\t\tb.get(&p)\n\t\t\taddProp(p)\n\n\t\tcase SubscriptionID:\n\t\t\tvar sub vbint\n\t\t\tb.get(&sub)\n\t\t\tif b.addSubscriptionID != nil {\n\t\t\t\tb.addSubscriptionID(uint32(sub))\n\t\t\t}\n\n\t\tdefault:\n\t\t\tb.fail(fmt.Errorf(\"unknown property id 0x%02x\", id))\n\t\t}\n\t}\n}\n\nfunc (b *buffer) get(v wireType) {\n\tif b.err != nil {\n\t\treturn\n\t}\n\trest := b.rest()\n\tif len(rest) == 0 {\n\t\tb.fail(ErrMissingData)\n\t\treturn\n\t}\n\tif err := v.UnmarshalBinary(rest); err != nil {\n\t\tb.fail(err)\n\t\treturn\n\t}\n\tn := v.width()\n\tif n > len(rest) {\n\t\tb.fail(ErrMissingData)\n\t\treturn\n\t}\n\tb.i += n\n}\n\n// rest returns the data not yet read.\nfunc (b *buffer) rest() []byte {\n\treturn b.data[b.i:]\n}\n\n// fail records err unless a previous failure is already recorded,\n// i.e. the first failure is the one reported.\nfunc (b *buffer) fail(err error) {\n\tif b.err == nil {\n\t\tb.err = err\n\t}"}, {"connack.go", "\tb := &buffer{data: data}", "\tb := newBuffer(data)"}, {"connect.go", "\tbuf := &buffer{data: data}", "\tbuf := newBuffer(data)"}, {"disconnect.go", "\tb := &buffer{data: data}", "\tb := newBuffer(data)"}, {"puback.go", "\tb := &buffer{data: data}", "\tb := newBuffer(data)"}, {"pubcomp.go", "\tb := &buffer{data: data}", "\tb := newBuffer(data)"}, {"pubrec.go", "\tb := &buffer{data: data}", "\tb := newBuffer(data)"}, {"pubrel.go", "\tb := &buffer{data: data}", "\tb := newBuffer(data)"}, {"suback.go", "\tb := &buffer{data: data}", "\tb := newBuffer(data)"}, {"subscribe.go", "\tb := &buffer{data: data}", "\tb := newBuffer(data)"}, {"unsuback.go", "\tb := &buffer{data: data}", "\tb := newBuffer(data)"}, {"unsubscribe.go", "\tb := &buffer{data: data}", "\tb := newBuffer(data)"}}},
 		{Name: "sticky-error-overwritten-behind-a-stale-nil-test", Rule: "R9.0", Where: "getAny", Edits: []Edit{{"buffer.go", "\tif b.atEnd() {\n\t\treturn\n\t}\n\tvar propLen vbint\n\tb.get(&propLen)\n\tend := b.i + int(propLen)\n\tvar id Ident\n\tfor b.i < end {\n\t\tb.get(&id)\n\t\t// first failure stops the parsing\n\t\tif b.err != nil {\n\t\t\treturn\n\t\t}\n\t\tfield, hasField := fields[id]\n\t\tif hasField {\n\t\t\tb.get(field())\n\t\t\tcontinue\n\t\t}\n\t\tswitch id {\n\t\tcase UserProperty:\n\t\t\tvar p UserProp\n\t\t\tb.get(&p)\n\t\t\taddProp(p)\n\n\t\tcase SubscriptionID:\n\t\t\tvar sub vbint\n\t\t\tb.get(&sub)\n\t\t\tif b.addSubscriptionID != nil {\n\t\t\t\tb.addSubscriptionID(uint32(sub))\n\t\t\t}\n\n\t\tdefault:\n\t\t\tb.err = fmt.Errorf(\"unknown property id 0x%02x\", id)\n\t\t}\n\t}", "\tif b.err != nil || b.atEnd() {\n\t\treturn\n\t}\n\tvar propLen vbint\n\tb.get(&propLen)\n\tend := b.i + int(propLen)\n\tvar id Ident\n\tfor b.i < end {\n\t\tb.get(&id)\n\t\t// first failure stops the parsing\n\t\tif b.err != nil {\n\t\t\treturn\n\t\t}\n\t\tfield, hasField := fields[id]\n\t\tif hasField {\n\t\t\tb.get(field())\n\t\t\tcontinue\n\t\t}\n\t\tswitch id {\n\t\tcase UserProperty:\n\t\t\tvar p UserProp\n\t\t\tb.get(&p)\n\t\t\taddProp(p)\n\n\t\tcase SubscriptionID:\n\t\t\tvar sub vbint\n\t\t\tb.get(&sub)\n\t\t\tif b.addSubscriptionID != nil {\n\t\t\t\tb.addSubscriptionID(uint32(sub))\n\t\t\t}\n\n\t\tdefault:\n\t\t\tb.err = fmt.Errorf(\"unknown property id 0x%02x\", id)\n\t\t}\n\t}\n\t// the properties have to fill the announced length exactly\n\tb.err = b.endsAt(end)\n}\n\n// endsAt returns an error if the current offset is not the given one.\nfunc (b *buffer) endsAt(end int) error {\n\tif b.i != end {\n\t\treturn fmt.Errorf(\"property length mismatch, ends at %v, expected %v\", b.i, end)\n\t}\n\treturn nil"}}},
 		{Name: "delegating-decoder-accepts-a-short-body-undecoded", Rule: "R9.2", Where: "(*PubAck).UnmarshalBinary", Edits: []Edit{{"puback.go", "\tb := &buffer{data: data}\n\tb.get(&p.packetID)\n\t// no more data, see 3.4.2.1 PUBACK Reason Code\n\tif len(data) > 2 {\n\t\tb.get(&p.reasonCode)\n\t\tb.getAny(p.propertyMap(), p.appendUserProperty)", "\t// without a packet identifier there is no variable header to decode\n\tif len(data) < 2 {\n\t\treturn nil\n\t}\n\treturn unmarshalAck(data,\n\t\t&p.packetID, &p.reasonCode, p.propertyMap(), p.appendUserProperty,\n\t)\n}\n\n// unmarshalAck decodes the variable header shared by PUBACK, PUBREC,\n// PUBREL and PUBCOMP.\nfunc unmarshalAck(\n\tdata []byte, packetID *wuint16, reasonCode *wuint8,\n\tfields map[Ident]func() wireType, addProp func(UserProp),\n) error {\n\tb := &buffer{data: data}\n\tb.get(packetID)\n\t// no more data, see 3.4.2.1 PUBACK Reason Code\n\tif len(data) > 2 {\n\t\tb.get(reasonCode)\n\t\tb.getAny(fields, addProp)"}, {"pubcomp.go", "\tb := &buffer{data: data}\n\tb.get(&p.packetID)\n\t// no more data, see 3.4.2.1 PUBACK Reason Code\n\tif len(data) > 2 {\n\t\tb.get(&p.reasonCode)\n\t\tb.getAny(p.propertyMap(), p.appendUserProperty)\n\t}\n\treturn b.err", "\t// without a packet identifier there is no variable header to decode\n\tif len(data) < 2 {\n\t\treturn nil\n\t}\n\treturn unmarshalAck(data,\n\t\t&p.packetID, &p.reasonCode, p.propertyMap(), p.appendUserProperty,\n\t)"}, {"pubrec.go", "\tb := &buffer{data: data}\n\tb.get(&p.packetID)\n\t// no more data, see 3.4.2.1 PUBACK Reason Code\n\tif len(data) > 2 {\n\t\tb.get(&p.reasonCode)\n\t\tb.getAny(p.propertyMap(), p.appendUserProperty)\n\t}\n\treturn b.err", "\t// without a packet identifier there is no variable header to decode\n\tif len(data) < 2 {\n\t\treturn nil\n\t}\n\treturn unmarshalAck(data,\n\t\t&p.packetID, &p.reasonCode, p.propertyMap(), p.appendUserProperty,\n\t)"}, {"pubrel.go", "\tb := &buffer{data: data}\n\tb.get(&p.packetID)\n\t// no more data, see 3.4.2.1 PUBACK Reason Code\n\tif len(data) > 2 {\n\t\tb.get(&p.reasonCode)\n\t\tb.getAny(p.propertyMap(), p.appendUserProperty)\n\t}\n\treturn b.err", "\t// without a packet identifier there is no variable header to decode\n\tif len(data) < 2 {\n\t\treturn nil\n\t}\n\treturn unmarshalAck(data,\n\t\t&p.packetID, &p.reasonCode, p.propertyMap(), p.appendUserProperty,\n\t)"}}},
 		{Name: "get-does-nothing-when-optional-and-at-the-end", Rule: "R9.0", Where: "(*buffer).get", Edits: []Edit{{"buffer.go", "\taddSubscriptionID func(uint32) // used in e.g. Publish\n}\n\n// getAny reads all properties from the current offset starting with\n// the variable length.  fields map property identity codes to wire\n// type fields and the addProp func is used for each user property.\nfunc (b *buffer) getAny(fields map[Ident]func() wireType, addProp func(UserProp)) {\n\tif b.atEnd() {\n\t\treturn\n\t}\n\tvar propLen vbint\n\tb.get(&propLen)\n\tend := b.i + int(propLen)\n\tvar id Ident\n\tfor b.i < end {\n\t\tb.get(&id)\n\t\t// first failure stops the parsing\n\t\tif b.err != nil {\n\t\t\treturn\n\t\t}\n\t\tfield, hasField := fields[id]\n\t\tif hasField {\n\t\t\tb.get(field())\n\t\t\tcontinue\n\t\t}\n\t\tswitch id {\n\t\tcase UserProperty:\n\t\t\tvar p UserProp\n\t\t\tb.get(&p)\n\t\t\taddProp(p)\n\n\t\tcase SubscriptionID:\n\t\t\tvar sub vbint\n\t\t\tb.get(&sub)\n\t\t\tif b.addSubscriptionID != nil {\n\t\t\t\tb.addSubscriptionID(uint32(sub))\n\t\t\t}\n\n\t\tdefault:\n\t\t\tb.err = fmt.Errorf(\"unknown property id 0x%02x\", id)\n\t\t}\n\t}\n}\n\nfunc (b *buffer) get(v wireType) {", "\t// optional is set once the mandatory fields are read, what follows\n\t// may be left out, e.g. reason code and properties of a PUBACK\n\toptional bool\n\n\taddSubscriptionID func(uint32) // used in e.g. Publish\n}\n\n// getAny reads all properties from the current offset starting with\n// the variable length.  fields map property identity codes to wire\n// type fields and the addProp func is used for each user property.\nfunc (b *buffer) getAny(fields map[Ident]func() wireType, addProp func(UserProp)) {\n\tif b.atEnd() {\n\t\treturn\n\t}\n\tvar propLen vbint\n\tb.get(&propLen)\n\tend := b.i + int(propLen)\n\tvar id Ident\n\tfor b.i < end {\n\t\tb.get(&id)\n\t\t// first failure stops the parsing\n\t\tif b.err != nil {\n\t\t\treturn\n\t\t}\n\t\tfield, hasField := fields[id]\n\t\tif hasField {\n\t\t\tb.get(field())\n\t\t\tcontinue\n\t\t}\n\t\tswitch id {\n\t\tcase UserProperty:\n\t\t\tvar p UserProp\n\t\t\tb.get(&p)\n\t\t\taddProp(p)\n\n\t\tcase SubscriptionID:\n\t\t\tvar sub vbint\n\t\t\tb.get(&sub)\n\t\t\tif b.addSubscriptionID != nil {\n\t\t\t\tb.addSubscriptionID(uint32(sub))\n\t\t\t}\n\n\t\tdefault:\n\t\t\tb.err = fmt.Errorf(\"unknown property id 0x%02x\", id)\n\t\t}\n\t}\n}\n\nfunc (b *buffer) get(v wireType) {\n\tif b.optional && b.atEnd() {\n\t\t// nothing more to read, the fields keep their zero values\n\t\treturn\n\t}"}, {"puback.go", "\tif len(data) > 2 {\n\t\tb.get(&p.reasonCode)\n\t\tb.getAny(p.propertyMap(), p.appendUserProperty)\n\t}", "\tb.optional = true\n\tb.get(&p.reasonCode)\n\tb.getAny(p.propertyMap(), p.appendUserProperty)"}, {"pubcomp.go", "\tif len(data) > 2 {\n\t\tb.get(&p.reasonCode)\n\t\tb.getAny(p.propertyMap(), p.appendUserProperty)\n\t}", "\tb.optional = true\n\tb.get(&p.reasonCode)\n\tb.getAny(p.propertyMap(), p.appendUserProperty)"}, {"pubrec.go", "\tif len(data) > 2 {\n\t\tb.get(&p.reasonCode)\n\t\tb.getAny(p.propertyMap(), p.appendUserProperty)\n\t}", "\tb.optional = true\n\tb.get(&p.reasonCode)\n\tb.getAny(p.propertyMap(), p.appendUserProperty)"}, {"pubrel.go", "\tif len(data) > 2 {\n\t\tb.get(&p.reasonCode)\n\t\tb.getAny(p.propertyMap(), p.appendUserProperty)\n\t}", "\tb.optional = true\n\tb.get(&p.reasonCode)\n\tb.getAny(p.propertyMap(), p.appendUserProperty)"}}},
@@ -467,13 +472,13 @@ func checkStickyResult(p *Prog, c *Check, cur *Cursor) {
 		pr := NewProver(p, fn)
 		cons := qname(fn)
 		// the cursor objects constructed here
-		var curs []*ssa.Alloc
+		var curs []ssa.Value
 		reads := false
 		for _, b := range fn.Blocks {
 			for _, ins := range b.Instrs {
-				if al, ok := ins.(*ssa.Alloc); ok {
-					if pt, ok := al.Type().Underlying().(*types.Pointer); ok && types.Identical(pt.Elem(), cur.T) {
-						curs = append(curs, al)
+				if v, isV := ins.(ssa.Value); isV && cur.readerCtor(fn) < 0 {
+					if _, ok := cur.newReader(v); ok {
+						curs = append(curs, v)
 					}
 				}
 				if call, ok := ins.(*ssa.Call); ok {
@@ -591,7 +596,7 @@ func checkStickyResult(p *Prog, c *Check, cur *Cursor) {
 					}
 					if !checked {
 						okAll = false
-						c.Bad("R9.2", cons, posOf(p, ret), "the decoder uses several sequential readers; the error of the one created at "+posOf(p, al)+" is neither returned here nor found nil before: what that reader rejected is accepted")
+						c.Bad("R9.2", cons, posOf(p, ret), "the decoder uses several sequential readers; the error of the one created at "+posOf(p, al.(ssa.Instruction))+" is neither returned here nor found nil before: what that reader rejected is accepted")
 					}
 				}
 			}
@@ -1163,6 +1168,8 @@ func checkPropertyLoop(p *Prog, c *Check, cur *Cursor, scope map[*ssa.Function]b
 	// a function of the library consumes when, on every path, it reads a value through the guarded primitive, stores
 	// a non-nil error in the reader, or calls a function that does (helper mode: the per-property helper; otherwise
 	// small per-identifier helpers such as `b.getUserProp(addProp)`)
+	selfContained := false
+	var idCellSelf ssa.Value
 	consMemo := map[*ssa.Function]bool{}
 	var consumes func(fn *ssa.Function, depth int) bool
 	consumes = func(fn *ssa.Function, depth int) bool {
@@ -1184,6 +1191,11 @@ func checkPropertyLoop(p *Prog, c *Check, cur *Cursor, scope map[*ssa.Function]b
 						hdone[b] = true
 					} else if len(callees) == 1 && callees[0] != cur.G && callees[0].Pkg == fn.Pkg && consumes(callees[0], depth+1) {
 						hdone[b] = true
+					} else if len(callees) == 1 {
+						// `b.fail(err)` with a non-nil error: a helper after which the reader's error is set
+						if k := cur.setterLeavesErrorSet(callees[0]); k >= 0 && k < len(x.Call.Args) && hpr.NonNil(x.Call.Args[k], b, 0) {
+							hdone[b] = true
+						}
 					}
 				case *ssa.Store:
 					if _, ok := cur.isField(x.Addr, cur.E); ok && hpr.NonNil(x.Val, b, 0) {
@@ -1215,6 +1227,110 @@ func checkPropertyLoop(p *Prog, c *Check, cur *Cursor, scope map[*ssa.Function]b
 	if helper != nil {
 		helperConsumes = consumes(helper, 0)
 	}
+	// the per-property helper may read the identifier itself (`for … { b.getProp(fields, addProp) }`): then the helper's
+	// body is the iteration — the identifier is read on every path through it, before the lookup, and behind that
+	// read every path to a return reads a value, records an error or has found the reader's error set
+	if helper != nil && idParam == nil && idLoad != nil {
+		if al, isAl := idLoad.X.(*ssa.Alloc); isAl && al.Parent() == helper {
+			var selfRead *ssa.Call
+			for _, b := range helper.Blocks {
+				for _, ins := range b.Instrs {
+					if x, ok := ins.(*ssa.Call); ok {
+						callees, _ := p.CG().Callees(x)
+						if len(callees) == 1 && callees[0] == cur.G && len(x.Call.Args) == 2 {
+							if mi, ok := x.Call.Args[1].(*ssa.MakeInterface); ok && mi.X == ssa.Value(al) && selfRead == nil {
+								selfRead = x
+							}
+						}
+					}
+				}
+			}
+			cons := qname(helper)
+			switch {
+			case selfRead == nil:
+				c.Unk("R9.5", cons, p.Pos(helper.Pos()), "cannot find the read of the property identifier")
+			case !selfRead.Block().Dominates(lookup.Block()):
+				c.Bad("R9.5", cons, posOf(p, lookup), "the identifier used for dispatch is not read before the dispatch")
+			default:
+				hpr := NewProver(p, helper)
+				hdone := map[*ssa.BasicBlock]bool{}
+				type hedge struct{ from, to *ssa.BasicBlock }
+				doneEdge := map[hedge]bool{}
+				for _, b := range helper.Blocks {
+					for _, ins := range b.Instrs {
+						switch x := ins.(type) {
+						case *ssa.Call:
+							if x == selfRead {
+								continue
+							}
+							callees, _ := p.CG().Callees(x)
+							if len(callees) == 1 && callees[0] == cur.G && len(x.Call.Args) == 2 {
+								hdone[b] = true
+							} else if len(callees) == 1 && callees[0] != cur.G && callees[0].Pkg == helper.Pkg && consumes(callees[0], 1) {
+								hdone[b] = true
+							} else if len(callees) == 1 {
+								if k := cur.setterLeavesErrorSet(callees[0]); k >= 0 && k < len(x.Call.Args) && hpr.NonNil(x.Call.Args[k], b, 0) {
+									hdone[b] = true
+								}
+							}
+						case *ssa.Store:
+							if _, ok := cur.isField(x.Addr, cur.E); ok && hpr.NonNil(x.Val, b, 0) {
+								hdone[b] = true
+							}
+						}
+					}
+					if iff, ok := terminator(b).(*ssa.If); ok {
+						for side, truth := range []bool{true, false} {
+							if v, isNil, ok := nilTestOf(iff.Cond, truth); ok && !isNil {
+								if ld, isLd := v.(*ssa.UnOp); isLd && ld.Op == token.MUL {
+									if base, isE := cur.isField(ld.X, cur.E); isE && base == ssa.Value(helper.Params[0]) {
+										doneEdge[hedge{b, b.Succs[side]}] = true
+									}
+								}
+							}
+						}
+					}
+				}
+				bad := ""
+				for _, b := range helper.Blocks {
+					if _, isRet := terminator(b).(*ssa.Return); isRet && !selfRead.Block().Dominates(b) {
+						bad = "the per-property helper can return without having read an identifier"
+					}
+				}
+				seenB := map[*ssa.BasicBlock]bool{}
+				var dfs func(b *ssa.BasicBlock)
+				dfs = func(b *ssa.BasicBlock) {
+					if seenB[b] || hdone[b] {
+						return
+					}
+					seenB[b] = true
+					if _, isRet := terminator(b).(*ssa.Return); isRet {
+						bad = "the per-property helper can return after reading an identifier without reading its value or recording an error: an undefined identifier is skipped instead of rejected"
+					}
+					for _, s2 := range b.Succs {
+						if !doneEdge[hedge{b, s2}] {
+							dfs(s2)
+						}
+					}
+				}
+				dfs(selfRead.Block())
+				if bad != "" {
+					c.Bad("R9.5", cons, posOf(p, selfRead), bad)
+				} else {
+					c.OK("R9.5", cons, posOf(p, selfRead), "the per-property helper reads the identifier, then on every path a value through the guarded primitive or a non-nil error (or finds the error set)")
+				}
+				// the loop itself: every iteration calls the helper
+				if !acyclicWithout(l, map[*ssa.BasicBlock]bool{helperCall.Block(): true}) {
+					c.Bad("R9.5", qname(loopFn), posOf(p, l.Header.Instrs[0]), "an iteration of the property loop can complete without calling the per-property helper")
+				}
+				selfContained = true
+				idCellSelf = al
+			}
+			if !selfContained {
+				return
+			}
+		}
+	}
 	// blocks that consume a value or set an error
 	done := map[*ssa.BasicBlock]bool{}
 	var idRead *ssa.Call
@@ -1236,6 +1352,11 @@ func checkPropertyLoop(p *Prog, c *Check, cur *Cursor, scope map[*ssa.Function]b
 				if len(callees) == 1 && callees[0] != cur.G && callees[0].Pkg == loopFn.Pkg && x != helperCall && consumes(callees[0], 0) {
 					done[b] = true
 				}
+				if len(callees) == 1 {
+					if k := cur.setterLeavesErrorSet(callees[0]); k >= 0 && k < len(x.Call.Args) && pr.NonNil(x.Call.Args[k], b, 0) {
+						done[b] = true
+					}
+				}
 			case *ssa.Store:
 				if _, ok := cur.isField(x.Addr, cur.E); ok && pr.NonNil(x.Val, b, 0) {
 					done[b] = true
@@ -1244,6 +1365,9 @@ func checkPropertyLoop(p *Prog, c *Check, cur *Cursor, scope map[*ssa.Function]b
 		}
 	}
 	// the identifier compared with the table is the byte on the wire, unchanged
+	if selfContained {
+		idCell = idCellSelf
+	}
 	if idCell != nil {
 		if pt, ok := idCell.Type().Underlying().(*types.Pointer); ok {
 			if nt := namedOf(pt.Elem()); nt != nil {
@@ -1261,6 +1385,8 @@ func checkPropertyLoop(p *Prog, c *Check, cur *Cursor, scope map[*ssa.Function]b
 		}
 	}
 	switch {
+	case selfContained:
+		// decided above, on the helper's body
 	case idRead == nil:
 		c.Unk("R9.5", cons, p.Pos(loopFn.Pos()), "cannot find the read of the property identifier")
 	case helper != nil && idParam == nil:
@@ -1299,6 +1425,23 @@ func checkPropertyLoop(p *Prog, c *Check, cur *Cursor, scope map[*ssa.Function]b
 			for _, ins := range b.Instrs {
 				bo, ok := ins.(*ssa.BinOp)
 				if !ok || bo.Op != token.EQL || stripConvs(bo.X) != ssa.Value(idParam) {
+					continue
+				}
+				if k, isC := constInt(bo.Y); isC {
+					accepted = append(accepted, acc{k, posOf(p, ins), qname(helper) + " case"})
+				}
+			}
+		}
+	}
+	if selfContained {
+		for _, b := range helper.Blocks {
+			for _, ins := range b.Instrs {
+				bo, ok := ins.(*ssa.BinOp)
+				if !ok || bo.Op != token.EQL {
+					continue
+				}
+				ld, ok := bo.X.(*ssa.UnOp)
+				if !ok || ld.Op != token.MUL || ld.X != idCell {
 					continue
 				}
 				if k, isC := constInt(bo.Y); isC {
